@@ -14,7 +14,7 @@ from vlib.mc import enum as E
 PROPERTY = 'C10'
 LEVEL = 'exploration'
 ENGINE = 'C'
-TECHNIQUE = ('bounded-exhaustive enumeration of the product sign x magnitude x '
+TECHNIQUE = ('stateless bounded model checking: complete enumeration of the product sign x magnitude x '
              'prefix x unit x unit system x return_int against exact Fraction '
              'arithmetic')
 LEVEL_TEXT = ('The complete product of the listed signs, magnitudes (integers, '
